@@ -191,6 +191,10 @@ def _expect(m, o, dt, du):
     qa = m.unit_quantum(o["u"])
     if o["shape"][0] == "q" and qa is not None:
         fa = mu.factor * round_to(Fraction(o["a"][1]), qa, "ROUND_HALF_EVEN")
+    if o["op"] == "k/":
+        if fa == 0:
+            return None
+        return _exp(m, Fraction(o["kk"][1]) / fa, bm_pow(mu.bmap, -1), dt, du, 1 / mu.factor)
     if o["op"] == "**":
         n = o["n"]
         if fa == 0 and n < 0:
